@@ -27,7 +27,12 @@ EXTRA = {
              "src/funtracks/actions/update_track_id.py", "src/funtracks/annotators/_track_annotator.py",
              "src/funtracks/annotators/_regionprops_annotator.py", "src/funtracks/annotators/_edge_annotator.py",
              "src/funtracks/annotators/_graph_annotator.py", "src/funtracks/annotators/_annotator_registry.py",
-             "src/funtracks/data_model/graph_attributes.py"],
+             "src/funtracks/data_model/graph_attributes.py",
+             "src/funtracks/user_actions/user_add_node.py", "src/funtracks/user_actions/user_add_edge.py",
+             "src/funtracks/user_actions/user_delete_node.py", "src/funtracks/user_actions/user_delete_edge.py",
+             "src/funtracks/user_actions/_user_swap_predecessors.py",
+             "src/funtracks/user_actions/user_update_segmentation.py",
+             "src/funtracks/user_actions/user_update_node_attrs.py"],
 }
 EXTRA_BY_PROP = {
     "C13": ["src/funtracks/import_export/magic_imread.py"],
